@@ -21,7 +21,7 @@ func checkC09(p *Program, tier string) *Result {
 	ruleLoop(p, r, "de")
 	r.floor("R-LOOP", 4)
 	ruleContinuationStates(p, r)
-	ruleSharedWrite(p, r)
+	ruleSharedWriteOpt(p, r, true)
 	ruleConfined(p, r)
 	r.Trusted = append(r.Trusted, "determinism of the library calls handlers make", "the confined-type table (rule_race.go), checked by R-CONFINED")
 	r.Assumptions = append(r.Assumptions, "equality of reply transcripts across interleavings as such is not decided; the claim is non-interference by construction (no shared mutable location), with sharing approximated by types and provenance because no pointer analysis is available")
